@@ -6,6 +6,16 @@ BASE = "cd /repo && go test -mod=mod -json -vet=off -count=1 -timeout 25m ./..."
 
 CLAIMED = {
  # id: (category, text, design_ref, level_note, technique)
+ "C18": ("other",
+  "Narrow structural claim on every path of FindRoot and Piecewise: with rho(a,b) <=> b = fn(a), extended over pairs of SSA phis as a greatest fixpoint, every `return x, delta` and every bracket pair (min/max and trial pairs) carried around the iteration satisfies rho, so the returned value is the function's value at the returned point; Piecewise returns a number only on paths where the bracket search succeeded, and the bracket search returns a usable pair only inside its scan loop under xs[j] >= x after the comparisons with the first and last knot failed (so outside and NaN arguments reach the error return). Bracketing, convergence, never-evaluated-outside and interpolation values are NOT decided.",
+  "DESIGN.md section 2, C18",
+  "Bracket pairs are chosen by variable naming (<p>X / <p>Delta); the relation itself is decided on SSA values.",
+  "relational greatest-fixpoint analysis over SSA phi pairs + guard-edge/path checks"),
+ "C19": ("other",
+  "Narrow structural claim: the month-length table has the twelve Gregorian constants and is never written; the month-length function returns table[month-1] or 29 exactly under month==2 and the leap predicate; the leap predicate is decided exactly by abstract interpretation over the congruence domain: its decision tree over y%c==0 tests is evaluated for every residue class modulo lcm(c...) (required to be a multiple of 400) and equals the Gregorian rule in each class, whatever form the predicate is written in. The generator's day/month/year roll-over and day-of-year accumulation are NOT decided.",
+  "DESIGN.md section 2, C19",
+  "The predicate must branch only on y%c ==/!= 0 tests (otherwise undecided). Nothing is executed; residues are abstract elements.",
+  "constant evaluation by go/types + congruence-domain abstract interpretation of the CFG"),
  "C17": ("other",
   "Structural clauses of 'always answers' and of the reporting rules, decided on every path of the runner: the deferred result encoding is registered first in the entry block and encodeResults calls Encode on the runner's writer exactly once on every path (one document per exit); every interface value dereferenced between decoding and Run and every argument of Run is non-nil on all paths (nil-ness lattice with per-return-site summaries; found and fixed the no-inputs request); the catalogue factory is nil-checked before the call; a float64 enters the result tree only through JsonSafeValue under !IsNaN && !IsInf(.,0) and every element/map entry comes from the JSON-safe functions; defaults are returned only with a message, defaulted parameters and missing inputs append warnings and all warnings are logged before Run; the runner lacks the dimension handshake of its sibling entry points (known finding). Equivalence with a direct run and panic-freedom of kernels are NOT decided.",
   "DESIGN.md section 2, C17",
